@@ -162,7 +162,7 @@ def teardown(ctx):
 @group(quick=500, thorough=20000)
 def direct1d(ctx, rng, idx):
     s = gen.scenario1d(rng, nmin=1, nmax=24, mach_max=float(rng.choice([0.5, 3.0, 10.0])), ratio=float(rng.choice([10.0, 1e4])),
-                       recons=["extrapol1"], big=0.03)
+                       recons=["extrapol1"], big=0.03, lscale=0.15)
     cfl = float(10 ** rng.uniform(-3, 3))
     if s.mname == "euler1d" and rng.random() < 0.15:
         s.field.data[1][:] = 0.0      # at rest
